@@ -23,7 +23,11 @@ ASSUME = ['operator new never fails', 'the session has no persister, no loggers 
 def build(ctx, name='sess_in.c', roots=None):
     # sess_in.cpp #includes runtime/session.cpp and shims/sess_common.cpp: the latter's content enters the cache key through a define
     ll = ctx.build_ir('sess_in.cpp', 'cut', extra=['-DVF_DEP_HASH=0x' + file_hash(VERIF + '/shims/sess_common.cpp')])
-    return ctx.translate(ll, roots or ROOTS, name, stubfiles=['common.stubs', 'sess.stubs'], models=['cxx.c', 'stubs.c', 'sess_env.c', 'sess_msg.c'], provided=PROVIDED + ['vf_gen_token'], opts=['--rpo'])
+    info = ctx.translate(ll, roots or ROOTS, name, stubfiles=['common.stubs', 'sess.stubs'], models=['cxx.c', 'stubs.c', 'sess_env.c', 'sess_msg.c'], provided=PROVIDED + ['vf_gen_token'], opts=['--rpo', '--vdispatch'])
+    # guard of the exception model (st_exc_throw): f8Exception::what is the only what() of the fix8 exception hierarchy in this translation
+    whats = set(re.findall(r'_ZNK4FIX8\w*?4whatEv', open(info['c']).read()))
+    if whats - {'_ZNK4FIX811f8Exception4whatEv'}: raise Broken('an exception class overrides what(): %s (exception model of models/sess_env.c no longer valid)' % sorted(whats))
+    return info
 
 # ---------------------------------------------------------------- native replay (real Session over libfix8.so + the repo's FIX4.2 unit-test schema)
 def replay_exe(ctx):
